@@ -102,6 +102,18 @@ def soundness(run, V, ubis, passes, gv_all, cell, hmax, route, truth=None, refin
             if cw is None:
                 continue
             Mi, dev = cw
+            # ... and it must really index the grain: at least half of the grain's supplied peaks within the tolerance of
+            # its pass, with the true (symmetry-equivalent) indices.  With few low-order reflections (single-ring data,
+            # hmax = 1) the rounding test above alone would accept an orientation 9 degrees away (witness: thorough seed 1,
+            # tetragonal P, three grains on the {111} ring, two of them 9 degrees apart modulo 4/mmm).
+            selg = np.flatnonzero(gid == g)
+            if len(selg) == 0:
+                continue
+            hg = u @ gv_all[selg].T                                        # 3 x n
+            htrue = np.round(np.linalg.inv(UB) @ (gv_all[selg] - noise[selg]).T)
+            good = (np.abs(hg - Mi @ htrue).max(axis=0) < 0.5) & (((hg - np.round(hg)) ** 2).sum(axis=0) < hkl_tol ** 2)
+            if good.mean() < 0.5:
+                continue
             cons.setdefault(g, []).append(k)
             # what the tolerance allows for THIS report: every peak i of grain g that it certainly indexes obeys
             # |(Mi+E).h_i + u.noise_i - Mi.h_i|_2 < tol, so |E.h_i| < tol + |u.noise_i| and
